@@ -32,21 +32,17 @@ def check(F, rep):
         rep.ob("requires_success", len(guarding) >= 1, site(f, b),
                "construction (%s) must require success of a verify call; guarding verify calls: %d of %d"
                % (mech, len(guarding), len(vcalls)), skey(F, f, "ctor-requires-verify:" + mech))
-        # same client_auth value
-        du = defuse(f)
+        # same client_auth value: exact provenance (copy chain), not mere dependence
         ck = rv["ops"][rv["fields"].index("client_key")]
         ckl = op_base(ck)
-        same = False
-        for cb, ct in guarding:
-            recv = arg_ref_target(f, ct["args"][0])
-            if recv is not None and ckl is not None and recv in du.closure(ckl):
-                # and it reads the public_key field of that value
-                fr = du.field_reads(ckl)
-                if any(fld == "public_key" for owner, fld in fr):
-                    same = True
-        rep.ob("derives_from", same, site(f, b),
-               "client_key must be the public_key field of the verified client_auth value",
-               skey(F, f, "ctor-key-from-verified:" + mech))
+        verified = {arg_ref_target(f, ct["args"][0]) for cb, ct in guarding}
+        srcs = copy_sources(f, ckl, stop=verified) if ckl is not None and not ck["p"].get("p") else set()
+        if ckl is not None and ck["p"].get("p"):
+            srcs = {("place", ckl, tuple(e[2] for e in ck["p"]["p"] if e[0] == "f"))}
+        same = bool(srcs) and all(sx[0] == "place" and sx[1] in verified and sx[2] == ("public_key",) for sx in srcs)
+        rep.ob("provenance", same, site(f, b),
+               "client_key must be exactly the public_key field of the verified client_auth value; sources: %s"
+               % sorted(str(x) for x in srcs), skey(F, f, "ctor-key-from-verified:" + mech))
 
     # ---- 2. the verify functions
     f = get_fn(F, rep, HS + "ClientAuth::verify")
